@@ -246,8 +246,14 @@ func vfC18Run(run *vfkit.Run, cs *vfC18Case) {
 		// the outbound direction dies silently (no FIN, no RST, nothing arrives): only the keepalive can notice.
 		// It must close the connection, so that the receive loop fails and the loss is reported - once.
 		silent := make(chan struct{})
+		afterResume := cs.Variant == "after-resume" // the half-open connection is the client's second one
 		peer := vfNewPeer(func(pc *vfPeerConn) {
-			if _, err := pc.Negotiate(&vfNeg{Bind: true, ExpectPresence: true}); err != nil {
+			if _, err := pc.Negotiate(&vfNeg{Bind: true, ExpectPresence: pc.N == 0}); err != nil {
+				return
+			}
+			if afterResume && pc.N == 0 {
+				time.Sleep(2 * iv)
+				pc.Close()
 				return
 			}
 			<-silent // a peer that neither sends nor closes, whatever happens
@@ -264,6 +270,18 @@ func vfC18Run(run *vfkit.Run, cs *vfC18Case) {
 			return
 		}
 		defer func() { go c.Disconnect() }()
+		base := 0
+		if afterResume {
+			if !vfWaitUntil(15*time.Second, func() bool { return obs.CountState(StateDisconnected) >= 1 }) {
+				run.Inconclusive("no-loss")
+				return
+			}
+			if err := c.Resume(); err != nil {
+				run.Inconclusive("resume")
+				return
+			}
+			base = 1
+		}
 		tc, ok := c.transport.(*XMPPTransport).conn.(*net.TCPConn)
 		if !ok {
 			run.Inconclusive("not-tcp")
@@ -271,7 +289,7 @@ func vfC18Run(run *vfkit.Run, cs *vfC18Case) {
 		}
 		tc.CloseWrite() // from now on every write fails; reads would block for ever
 		reported := vfWaitUntil(20*time.Second, func() bool {
-			return len(obs.Errors()) >= 1 && obs.CountState(StateDisconnected) >= 1
+			return len(obs.Errors()) >= base+1 && obs.CountState(StateDisconnected) >= base+1
 		})
 		if !reported {
 			run.Violation("C18/dead-connection-not-closed-by-keepalive", fmt.Sprintf("writes fail since 20s (keepalive every %v), yet the loss was not reported: %d error callbacks, %d Disconnected events, receive loop alive: %v",
@@ -283,11 +301,103 @@ func vfC18Run(run *vfkit.Run, cs *vfC18Case) {
 			run.Violation("C18/goroutine-left-after-keepalive-detected-loss", fmt.Sprintf("%d goroutines of this client are still running", len(left)), map[string]interface{}{"case": cs, "goroutines": left})
 			return
 		}
-		if n, d := len(obs.Errors()), obs.CountState(StateDisconnected); n != 1 || d != 1 {
+		if n, d := len(obs.Errors()), obs.CountState(StateDisconnected); n != base+1 || d != base+1 {
 			run.Violation("C18/keepalive-detected-loss-reported-more-than-once", fmt.Sprintf("%d error callbacks, %d Disconnected events", n, d), cs)
 			return
 		}
 		run.Count("half_open_losses_detected", 1)
+		if afterResume {
+			run.Count("half_open_losses_detected_after_resume", 1)
+		}
+	case "one-keepalive":
+		// K losses, each followed at once by a Resume from inside the Disconnected handler, with an interval so short
+		// that the keepalive is busy pinging most of the time when its session ends. Afterwards the session is up and
+		// exactly one keepalive may exist for this client: an old one that survived its session would go on pinging
+		// the new connection for ever.
+		hold := make(chan struct{})
+		lastUp := make(chan struct{})
+		var lastOnce sync.Once
+		peer := vfNewPeer(func(pc *vfPeerConn) {
+			if _, err := pc.Negotiate(&vfNeg{Bind: true, ExpectPresence: pc.N == 0}); err != nil {
+				return
+			}
+			go func() {
+				for {
+					if _, err := pc.Next(); err != nil {
+						return
+					}
+				}
+			}()
+			if pc.N < cs.K {
+				time.Sleep(3 * time.Millisecond)
+				pc.Close()
+				return
+			}
+			lastOnce.Do(func() { close(lastUp) })
+			<-hold
+		})
+		defer peer.Stop()
+		defer close(hold)
+		c, obs, err := vfNewClient(vfClientOpt{Addr: peer.Addr(), Insecure: true, Keepalive: iv}, nil)
+		if err != nil {
+			run.Inconclusive("newclient")
+			return
+		}
+		var resumes int32
+		c.SetHandler(func(e Event) error {
+			obs.onEvent(e)
+			if e.State.state == StateDisconnected && int(atomic.AddInt32(&resumes, 1)) <= cs.K {
+				for try := 0; try < 50; try++ { // a reconnect attempt may be derailed by a stale ping: just try again
+					if c.Resume() == nil {
+						break
+					}
+				}
+			}
+			return nil
+		})
+		if err := c.Connect(); err != nil {
+			run.Inconclusive("connect")
+			return
+		}
+		defer func() { go c.Disconnect() }()
+		select {
+		case <-lastUp:
+		case <-time.After(60 * time.Second):
+			run.Inconclusive("resume-chain-watchdog")
+			return
+		}
+		countKA := func() int {
+			n := 0
+			for _, g := range vfClientGoroutines(c) {
+				if strings.Contains(g, "gosrc.io/xmpp.keepalive(") {
+					n++
+				}
+			}
+			return n
+		}
+		// A keepalive whose ping failed closes the transport, and that close takes up to ConnectTimeout (1 s here) before
+		// it touches the socket: let any such close that is still pending from the earlier sessions come due (pacing),
+		// then judge. The last session was never touched by the peer: it must still be there.
+		time.Sleep(1300 * time.Millisecond)
+		if d := obs.CountState(StateDisconnected); d > cs.K {
+			run.Violation("C18/idle-session-lost-while-keepalive-runs:one-keepalive", fmt.Sprintf("%d sessions were ended by the peer, the last one (connection %d) was left alone - yet %d losses were reported, the last error being %v: the client closed a healthy connection itself (the keepalive of an earlier, lost session was still at work)",
+				cs.K, len(peer.Conns()), d, vfLastN(obs.Errors(), 1)), cs)
+			return
+		}
+		// an old loop is released when the receive loop of its session returns - which it does right after the handler
+		// that resumed; give that all the time it wants
+		settled := vfWaitUntil(10*time.Second, func() bool { return countKA() == 1 })
+		if !settled {
+			n := countKA()
+			if n > 1 {
+				run.Violation("C18/keepalive-survives-its-session", fmt.Sprintf("after %d losses and resumptions (interval %v) the client has %d keepalive loops, 10 s after the last session came up", cs.K, iv, n), cs)
+			} else {
+				run.Violation("C18/no-keepalive-after-resume", fmt.Sprintf("after %d losses and resumptions the client has no keepalive loop (resumes started by the handler: %d, connections seen by the peer: %d, Disconnected events: %d, established events: %d, last errors: %v, client goroutines: %v)",
+					cs.K, atomic.LoadInt32(&resumes), len(peer.Conns()), obs.CountState(StateDisconnected), obs.CountState(StateSessionEstablished), vfLastN(obs.Errors(), 4), vfClientGoroutines(c)), cs)
+			}
+			return
+		}
+		run.Count("resume_chains_with_one_keepalive", 1)
 	case "e2e":
 		var pcc *vfPeerConn
 		mark := 0
@@ -455,6 +565,8 @@ func TestVf_C18(t *testing.T) {
 		cases = append(cases, &vfC18Case{Mode: "e2e", Interval: []int{10000, 20000, 40000, 5000}[i%4], K: 10, Variant: "tls"})
 		cases = append(cases, &vfC18Case{Mode: "clean-close", Interval: []int{5000, 10000, 20000, 40000}[i%4], K: 4})
 		cases = append(cases, &vfC18Case{Mode: "half-open", Interval: []int{5000, 10000, 20000, 40000}[i%4], K: 4})
+		cases = append(cases, &vfC18Case{Mode: "half-open", Interval: []int{10000, 20000, 40000, 5000}[i%4], K: 4, Variant: "after-resume"})
+		cases = append(cases, &vfC18Case{Mode: "one-keepalive", Interval: []int{50, 100, 200, 20}[i%4], K: 25})
 	}
 	run.Exhaustive(true)
 	var wg sync.WaitGroup
@@ -476,4 +588,11 @@ func TestVf_C18(t *testing.T) {
 	if run.NViolations() > 0 {
 		t.Fail()
 	}
+}
+
+func vfLastN(x []string, n int) []string {
+	if len(x) > n {
+		return x[len(x)-n:]
+	}
+	return x
 }
